@@ -744,6 +744,62 @@ func ampKinds(p *core.Program, f *core.Func, ptr *ast.CaseClause, amp ast.Expr, 
 		}
 		return out, "kinds " + map[bool]string{true: "in", false: "not in"}[fct.Val] + " the kind table " + tbl.Name()
 	}
+	// (d) guarded by comparisons of the element kind with kind constants: `k == Struct || k == Map || …` (k the result of
+	// a Kind() call, or the call itself)
+	for _, fct := range facts {
+		if fct.Tag != nil {
+			continue
+		}
+		var kinds []string
+		isKind := true
+		var split func(e ast.Expr)
+		split = func(e ast.Expr) {
+			e = ast.Unparen(e)
+			b, isBin := e.(*ast.BinaryExpr)
+			if isBin && b.Op == token.LOR {
+				split(b.X)
+				split(b.Y)
+				return
+			}
+			if !isBin || b.Op != token.EQL {
+				isKind = false
+				return
+			}
+			x, k := b.X, b.Y
+			tv, isC := info.Types[k]
+			if !isC || tv.Value == nil {
+				x, k = k, x
+				tv, isC = info.Types[k]
+			}
+			if !isC || tv.Value == nil || core.NamedTypeName(tv.Type) != "reflect.Kind" {
+				isKind = false
+				return
+			}
+			src, _ := core.Resolve(info, f.Body, x)
+			if c, isCall := ast.Unparen(src).(*ast.CallExpr); !isCall || !strings.HasSuffix(core.CalleeName(info, c), ").Kind") {
+				isKind = false
+				return
+			}
+			if v, exact := constant.Int64Val(tv.Value); exact {
+				kinds = append(kinds, kindName(v))
+			}
+		}
+		split(fct.Cond)
+		if !isKind || len(kinds) == 0 {
+			continue
+		}
+		listed := map[string]bool{}
+		for _, k := range kinds {
+			listed[k] = true
+		}
+		var out []string
+		for _, a := range all {
+			if listed[a] == fct.Val {
+				out = append(out, a)
+			}
+		}
+		return out, "kinds for which `" + core.ExprStr(fct.Cond) + "` is " + map[bool]string{true: "true", false: "false"}[fct.Val]
+	}
 	return all, "unguarded: every element kind"
 }
 
